@@ -12,7 +12,14 @@ template, i.e. the identity, and that template is itself translated as `scalarop
   compute_final_info                the trailing `if (k == m_n - 1) {... if (akk == 0) m_info = NumericalIssue }`
   dense_set_shift_guard             DenseSymShiftSolve::set_shift : the throwing check after compute()
   symshift_factorize_ok, symshift_set_shift_guard   SymShiftInvertHelper<dense,...>::factorize return + SymShiftInvert::set_shift check
-Hand-modelled (Model/BKLDLT.lean), tied by correspondence only: storage, copy_data, pivot search/selection, eliminations, solve loops.
+Complex Hermitian instantiation (used by Model/BKLDLTC.lean):
+  scalarop_conj_c, scalarop_real_c  the partial specialisation ScalarOp<std::complex<RealScalar>> (std::complex = pair)
+  copy_fast_path                    the branch condition of copy_data (which storage order x triangle takes the std::copy path)
+  solve_inplace_2x2_h, ge2_status_h the same statements as above with `ScalarOp<Scalar>::conj/real` left as parameters `cj`/`rl`
+                                    (instantiated in the model with the translated complex specialisation; ge1_status and
+                                    compute_final_info contain no conj/real and are used as they are, at the complex scalar type)
+Hand-modelled (Model/BKLDLT.lean, Model/BKLDLTC.lean), tied by correspondence only: storage, copy_data loops, pivot search/selection,
+eliminations, solve loops.
 """
 from targets import T, first_n
 from xlate import Fn, XlateError, Out
@@ -21,6 +28,9 @@ import astdump
 H = 'LinAlg/BKLDLT.h'
 SCH = ' {α : Type} [Add α] [Sub α] [Mul α] [Div α] [Neg α] [Sc α]'
 CONJ = {'conj': {'lean': 'scalarop_conj', 'kind': 'sc'}, 'real': {'lean': 'scalarop_real', 'kind': 'sc'}}
+
+CONJ_H = {'conj': {'lean': 'cj', 'kind': 'sc'}, 'real': {'lean': 'rl', 'kind': 'sc'}}
+SCH_H = SCH + ' (cj rl : α → α)'
 
 def swap_hook(fn, s, env, out, ind):
     """std::swap(a, b) on two scalar locals/params"""
@@ -84,10 +94,10 @@ def compress_permutation(tu, t):
             f'    if {fn.to_bool(c, ck)} then m_permc ++ [({a}, {b})] else m_permc\n'
             f'  ) []')
 
-def ge_status(which):
+def ge_status(which, calls=CONJ, sch=SCH, suffix=''):
     def g(tu, t):
         node = tu.find('BKLDLT::gaussian_elimination_' + which)
-        fn = Fn(tu, node, dict(mode='value', calls=CONJ))
+        fn = Fn(tu, node, dict(mode='value', calls=calls))
         ss = body_of(node)
         ifs = [s for s in ss if s['kind'] == 'IfStmt' and fn.escapes(s)]
         rets = [s for s in ss if s['kind'] == 'ReturnStmt']
@@ -102,7 +112,7 @@ def ge_status(which):
             # the statements `e11 = real(e11); e22 = real(e22)` are the identity for real scalars (scalarop_real)
         # nothing but declarations / diag write-back may precede the test
         txt = render(fn, pre + [ifs[0], rets[0]], env, None)
-        return f'def ge{which[0]}_status{SCH} {params} : Int :=\n' + txt
+        return f'def ge{which[0]}_status{suffix}{sch} {params} : Int :=\n' + txt
     return g
 
 def compute_status(tu, t):
@@ -178,6 +188,112 @@ def symshift_guard(tu, t):
     res += 'def symshift_set_shift_guard (success : Bool) : Res Unit :=\n' + txt
     return res
 
+# ---------------------------------------------------------------- complex Hermitian instantiation
+def cplx_expr(x, pname):
+    """tiny expression emitter for the bodies of ScalarOp<std::complex<RealScalar>>::conj / ::real (std::complex = pair)"""
+    while x['kind'] in ('ExprWithCleanups', 'ParenExpr', 'ImplicitCastExpr', 'MaterializeTemporaryExpr'): x = x['inner'][0]
+    k = x['kind']
+    if k == 'DeclRefExpr':
+        if x['referencedDecl']['name'] != pname: raise XlateError('unexpected variable ' + x['referencedDecl']['name'])
+        return pname, 'cplx'
+    if k == 'CallExpr':
+        cal = x['inner'][0]; args = x['inner'][1:]
+        if cal['kind'] == 'UnresolvedLookupExpr' and cal.get('name') == 'conj' and len(args) == 1:
+            a, ak = cplx_expr(args[0], pname)
+            if ak != 'cplx': raise XlateError('conj of a non-complex value')
+            return f'(Sc.conj {a})', 'cplx'
+        if cal['kind'] in ('CXXDependentScopeMemberExpr', 'MemberExpr') and cal.get('member', cal.get('name')) in ('real', 'imag') and not args:
+            a, ak = cplx_expr(cal['inner'][0], pname)
+            if ak != 'cplx': raise XlateError('.real()/.imag() of a non-complex value')
+            return (f'{a}.1' if cal.get('member', cal.get('name')) == 'real' else f'{a}.2'), 'sc'
+        raise XlateError('call not understood in ScalarOp<complex> body')
+    if k in ('CXXUnresolvedConstructExpr', 'CXXFunctionalCastExpr', 'CXXTemporaryObjectExpr', 'CXXConstructExpr'):
+        ty = x.get('type', {}).get('qualType', ''); args = x.get('inner', [])
+        if 'complex<' in ty and len(args) == 2:
+            (a, ak), (b, bk) = cplx_expr(args[0], pname), cplx_expr(args[1], pname)
+            if ak != 'sc' or bk != 'sc': raise XlateError('complex(re, im) of non-real parts')
+            return f'({a}, {b})', 'cplx'
+        if 'complex<' not in ty and len(args) == 1:
+            return cplx_expr(args[0], pname)[0], 'sc'
+        raise XlateError('constructor not understood: ' + ty)
+    if k == 'IntegerLiteral': return f'(Sc.ofInt {x["value"]})', 'sc'
+    raise XlateError('ScalarOp<complex>: unsupported expression ' + k)
+
+def scalarop_cplx(tu, t):
+    spec = [o for o in tu.objs if o.get('name') == 'ScalarOp' and o['kind'] == 'ClassTemplatePartialSpecializationDecl']
+    if len(spec) != 1: raise XlateError('expected exactly one partial specialisation of ScalarOp')
+    targ = spec[0]['inner'][0].get('type', {}).get('qualType', '')
+    if not targ.startswith('complex<'): raise XlateError('ScalarOp specialisation is not for std::complex: ' + targ)
+    res = []
+    for nm in ('conj', 'real'):
+        ms = [c for c in spec[0]['inner'] if c['kind'] == 'CXXMethodDecl' and c.get('name') == nm]
+        if len(ms) != 1: raise XlateError('ScalarOp<complex>::' + nm + ' not found')
+        ps = [c for c in ms[0]['inner'] if c['kind'] == 'ParmVarDecl']
+        if len(ps) != 1: raise XlateError('one parameter expected')
+        ss = [s for s in body_of(ms[0]) if not (s['kind'] == 'DeclStmt' and all(d['kind'] == 'UsingDecl' for d in s['inner']))]
+        if len(ss) != 1 or ss[0]['kind'] != 'ReturnStmt': raise XlateError('single return expected in ScalarOp<complex>::' + nm)
+        e, ek = cplx_expr(ss[0]['inner'][0], ps[0]['name'])
+        if ek != 'cplx': raise XlateError('complex result expected')
+        res.append(f'def scalarop_{nm}_c{SCH} ({ps[0]["name"]} : α × α) : α × α :=\n  {e}')
+    return '\n\n'.join(res)
+
+EIGEN_UPLO = {'Lower': '1', 'Upper': '2'}   # Eigen::UpLoType (Eigen/src/Core/util/Constants.h)
+
+def copy_fast_path(tu, t):
+    """the condition under which copy_data takes the std::copy path, as a function of the storage order and uplo"""
+    node = tu.find('BKLDLT::copy_data')
+    ss = body_of(node)
+    ifs = [s for s in ss if s['kind'] == 'IfStmt']
+    if len(ifs) != 1 or len(ifs[0]['inner']) != 3 or ss[-1] is not ifs[0]: raise XlateError('copy_data: expected a final if/else')
+    locs = {}
+    def ex(x):
+        while x['kind'] in ('ParenExpr', 'ImplicitCastExpr', 'ExprWithCleanups'): x = x['inner'][0]
+        k = x['kind']
+        if k in ('CXXDependentScopeMemberExpr', 'DependentScopeDeclRefExpr'):
+            if x.get('member', x.get('name')) == 'IsRowMajor' or 'IsRowMajor' in tu.src_text(x): return 'rowMajor', 'bool'
+            raise XlateError('unknown dependent name')
+        if k == 'DeclRefExpr':
+            rd = x['referencedDecl']
+            if rd['kind'] == 'ParmVarDecl' and rd['name'] == 'uplo': return 'uplo', 'int'
+            if rd['kind'] == 'EnumConstantDecl' and rd['name'] in EIGEN_UPLO: return EIGEN_UPLO[rd['name']], 'int'
+            if rd['kind'] == 'VarDecl' and rd['name'] in locs: return locs[rd['name']]
+            raise XlateError('copy_data condition: unexpected name ' + rd.get('name', '?'))
+        if k == 'UnaryOperator' and x['opcode'] == '!':
+            a, ak = ex(x['inner'][0])
+            if ak != 'bool': raise XlateError('! of non-bool')
+            return f'(!{a})', 'bool'
+        if k == 'BinaryOperator' and x['opcode'] in ('&&', '||'):
+            (a, ak), (b, bk) = ex(x['inner'][0]), ex(x['inner'][1])
+            if ak != 'bool' or bk != 'bool': raise XlateError('logical op on non-bool')
+            return f'({a} {x["opcode"]} {b})', 'bool'
+        if k == 'BinaryOperator' and x['opcode'] in ('==', '!='):
+            (a, ak), (b, bk) = ex(x['inner'][0]), ex(x['inner'][1])
+            if ak != bk: raise XlateError('comparison of different kinds')
+            if ak == 'bool': return f'({a} {x["opcode"]} {b})', 'bool'
+            return f'(decide ({a} {"=" if x["opcode"] == "==" else "≠"} {b}))', 'bool'
+        if k == 'ConditionalOperator':
+            (c, ck), (a, ak), (b, bk) = ex(x['inner'][0]), ex(x['inner'][1]), ex(x['inner'][2])
+            if ck != 'bool' or ak != bk: raise XlateError('conditional operator kinds')
+            return f'(if {c} then {a} else {b})', ak
+        if k == 'CXXBoolLiteralExpr': return ('true' if x['value'] else 'false'), 'bool'
+        raise XlateError('copy_data condition: unsupported expression ' + k)
+    for s in ss[:-1]:
+        if s['kind'] != 'DeclStmt': raise XlateError('copy_data: unexpected statement before the branch: ' + s['kind'])
+        for vd in s['inner']:
+            ty = vd.get('type', {}).get('qualType', '')
+            if ty in ('const bool', 'bool', 'const int', 'int') and vd.get('inner'):
+                locs[vd['name']] = ex(vd['inner'][0])
+            elif vd.get('name') != 'src': raise XlateError('copy_data: unexpected local ' + vd.get('name', '?'))
+    c, ck = ex(ifs[0]['inner'][0])
+    if ck != 'bool': raise XlateError('condition is not boolean')
+    return f'def copy_fast_path (rowMajor : Bool) (uplo : Int) : Bool :=\n  {c}'
+
+def solve2_h(tu, t):
+    node = tu.find('BKLDLT::solve_inplace_2x2')
+    txt, _ = Fn(tu, node, dict(mode='outparams', out=['b1', 'b2'], out_is_inout=True, calls=CONJ_H, ret_type='α × α')).translate('solve_inplace_2x2_h')
+    if txt.count('[Sc α] (') != 1: raise XlateError('signature shape')
+    return txt.replace('[Sc α] (', '[Sc α] (cj rl : α → α) (', 1)
+
 BK = [
     T('scalarop_conj', 'ScalarOp::conj', H, mode='value', ret_kind='sc', ret_type='α'),
     T('scalarop_real', 'ScalarOp::real', H, mode='value', ret_kind='sc', ret_type='α'),
@@ -188,6 +304,10 @@ BK = [
     dict(lean='ge1_status', header=H, custom=ge_status('1x1'), path='BKLDLT::gaussian_elimination_1x1'),
     dict(lean='ge2_status', header=H, custom=ge_status('2x2'), path='BKLDLT::gaussian_elimination_2x2'),
     dict(lean='compute_status', header=H, custom=compute_status, path='BKLDLT::compute'),
+    dict(lean='scalarop_cplx', header=H, custom=scalarop_cplx, path='ScalarOp<std::complex<RealScalar>>::conj / ::real'),
+    dict(lean='copy_fast_path', header=H, custom=copy_fast_path, path='BKLDLT::copy_data'),
+    dict(lean='solve_inplace_2x2_h', header=H, custom=solve2_h, path='BKLDLT::solve_inplace_2x2'),
+    dict(lean='ge2_status_h', header=H, custom=ge_status('2x2', CONJ_H, SCH_H, '_h'), path='BKLDLT::gaussian_elimination_2x2'),
     dict(lean='dense_set_shift_guard', header='MatOp/DenseSymShiftSolve.h', custom=dense_guard, path='DenseSymShiftSolve::set_shift'),
     dict(lean='symshift_guard', header='MatOp/SymShiftInvert.h', custom=symshift_guard, path='SymShiftInvert::set_shift'),
 ]
